@@ -5,6 +5,7 @@ CONSTANTS
   Classes <- WithAlias
   LRegs <- AllRegs
   RRegs <- AllRegs
+  ScalarTs <- AllSTs
   OneStep = FALSE
   EmitOn = FALSE
 INVARIANTS TypeOK Aliases
